@@ -25,7 +25,7 @@ RULE = ('bpch files of 1-3 time steps, 1-4 (category, tracer) blocks per step fr
         'reference encoder = Lean encoder, Lean decoder recovers the spec; (2) bpch1(noscale) presents the raw '
         'values, ncf2bpch of it reproduces the bytes; (3) bpch1 with scaling = float32(raw) * scale with the unit '
         'and name the Lean `resolve` selects; (4) the block-walking reader bpch2 presents the same data as bpch1; '
-        'non-trivial = at least 2 steps and 2 blocks with different layer counts')
+        'non-trivial = at least 2 steps and 2 blocks with different layer counts; (5) the scaled file written by ncf2bpch into an empty directory and read again: names, units, values')
 ASSUMPTIONS = ['float32 multiplication by the scale factor is numpy, checked numerically (not modelled)',
                'numpy memmap / structured dtypes are trusted for the stride arithmetic, which is exercised on every case']
 MIN_NONTRIVIAL = {'quick': 15, 'thorough': 200}
